@@ -140,6 +140,7 @@ package main
 //@ ghost func keyFP(k any) string
 //@ func getKeyFingerprint
 //@   assume ret1 == nil ==> ret0 == keyFP(key)
+//@   modifies nothing
 // ... which is the lower-case hexadecimal SHA-256 of the key's SSH wire form, the form the configured deny list uses:
 // the value returned is the one formatted with %x in this call, after a SHA-256 was set up
 //@   atcall crypto/sha256.New requires () :: true                                                          #C06.fingerprint-is-a-sha256 @C06
@@ -586,6 +587,7 @@ package main
 
 //@ func (*RuntimeState).idpOpenIDCAuthorizationHandler
 //@   atcall jwt.Builder).Claims requires (b jwt.Builder, i any) :: isType[keymasterdCodeToken](i) && ghostAuthed && asType[keymasterdCodeToken](i).Username == ghostAuthUser && asType[keymasterdCodeToken](i).Type == "token_endpoint" && asType[keymasterdCodeToken](i).RedirectURI == ghostApprovedRedirect && asType[keymasterdCodeToken](i).Subject == formGet(r.Form, "client_id")  #C12.code-binds-user-client-redirect @C12
+//@   atcall jwt.Builder).Claims requires (b jwt.Builder, i any) :: isType[keymasterdCodeToken](i) ==> asType[keymasterdCodeToken](i).Nonce == formGet(r.Form, "nonce")   #C12.code-carries-the-nonce-of-the-request @C12
 //@   atcall jwt.Builder).Claims requires (b jwt.Builder, i any) :: isType[keymasterdCodeToken](i) ==> asType[keymasterdCodeToken](i).AuthExpiration <= nowNanos()/1000000000 + 16*3600 && asType[keymasterdCodeToken](i).Expiration <= nowNanos()/1000000000 + 300  #C12.code-lifetimes @C12
 
 // what the directory answers is not among the inputs C10 quantifies over (keys, client certificates, signed tokens):
@@ -1005,3 +1007,9 @@ package main
 //@ neverassigned baseConfig.AllowedAuthBackendsForCerts, baseConfig.AllowedAuthBackendsForWebUI   #C01.listed-methods-are-the-ones-the-file-lists @C01,C05
 //@ neverassigned baseConfig.AdminUsers, baseConfig.AdminGroups, baseConfig.AutomationAdmins, baseConfig.AutomationUsers, baseConfig.AutomationUserGroups   #C08.administrators-are-the-ones-the-file-lists @C08,C11
 //@ neverassigned DenyKeyConfig.KeyDenyFPsshSha256   #C06.deny-list-is-the-one-the-file-lists @C06
+
+// ---- C12 "verifies under the published JWKS": the key set served holds every keymaster key (the signing keys are
+// among them: C09), one entry per key, none filtered out (the entry appended in an iteration is built from that iteration's key)
+//@ func (*RuntimeState).idpOpenIDCJWKSHandler
+//@   loop 1 (currentKeys jose.JSONWebKeySet, rangeindex int) invariant len(currentKeys.Keys) == rangeindex + 1   #C12.jwks-scan @C12
+//@   atcall encoding/json.Marshal requires (v any) :: isType[jose.JSONWebKeySet](v) ==> len(asType[jose.JSONWebKeySet](v).Keys) == len(state.KeymasterPublicKeys)   #C12.jwks-serves-one-entry-per-keymaster-key @C12,C09
